@@ -8,6 +8,37 @@
    (NOT in the tree: C03_refuted_close_then_more is a known finding). *)
 Require Import AV.Lib.Base AV.H1.ConnRec AV.H1.ConnState AV.H1.ConnSpec AV.H1.ConnProofs.
 Require Import AV.H1.ConnGraceful AV.H1.ConnSeal AV.H1.ConnCtx AV.H1.ConnLocal AV.H1.ConnKeepAlive AV.H1.ConnQuiet.
+Require Import AV.Gen.ConnStateTables AV.H1.ConnTie.
+
+(* TIE TO THE SOURCE TEXT. Gen/ConnStateTables.v is generated on every check from
+   actix-http/src/h1/dispatcher.rs (tools/gen/conn_state.py): the statement lists with guards, in
+   source order, of the regions the model transcribes. [run c e TABLE s] interprets a table over the
+   model state ([G] a guard). For the tree as it is, the model's transitions ARE the interpretation
+   of: the four poll_request arms that queue an error message (each sets READ_DISCONNECT),
+   should_close_for_unread_payload and its call-site conjunctions in send_response /
+   send_error_response, the Ready(None) arms of SendPayload and SendErrorPayload, the Error and Item
+   arms of `messages.pop_front()` (F12: context derived from the request's own head), and the F12
+   save / restore statements around the decode of a request head. *)
+Theorem C03_transitions_match_source : forall c s, fx c = tree_fixes ->
+  parse_error s = run c env0 CS_ERR_PARSE s /\
+  internal_error s = run c env0 CS_ERR_CHUNK s /\ internal_error s = run c env0 CS_ERR_EOF s /\
+  CS_ERR_TOO_LARGE = map (fun a => match a with SPushErr _ => SPushErr 431 | a => a end) CS_ERR_PARSE /\
+  should_close c s = close_unread s /\
+  (forall e, G c e CS_CU_SEND_RESPONSE s = (close_unread s && (if fx_ctx (fx c) then is_nil (messages s) else true)) /\
+             G c e CS_CU_SEND_ERROR s = (close_unread s && (if fx_ctx (fx c) then is_nil (messages s) else true)) /\
+             G c (with_cu (G c e CS_CU_SEND_RESPONSE s) e) CS_CLOSE_AFTER_RESPONSE s = (draining s || G c e CS_CU_SEND_RESPONSE s) /\
+             G c (with_cu (G c e CS_CU_SEND_ERROR s) e) CS_CLOSE_AFTER_ERROR s = (draining s || G c e CS_CU_SEND_ERROR s)) /\
+  body_end c s = add_trace TComplete (run c env0 CS_BODY_END s) /\
+  body_end_err c s = add_trace TComplete (run c env0 CS_BODY_END_ERR s) /\
+  (forall st, send_response c None st ONone 0 0 s = run c (with_status st env0) CS_POP_ERROR s) /\
+  (forall r, start_service c true r s = run c (with_req r env0) CS_POP_ITEM s) /\
+  (forall r, CS_DECODE_LOOP_PREFIX = [SSaveCtx] /\
+     (is_none (dstate s) = true ->
+        run c (fst (fst (exl c CS_DECODE_LOOP_PREFIX (with_req r env0, s)))) CS_DISPATCH_OR_QUEUE (set_ctx c r s) = handle_request c r (set_ctx c r s)) /\
+     (is_none (dstate s) = false ->
+        run c (fst (fst (exl c CS_DECODE_LOOP_PREFIX (with_req r env0, s)))) CS_DISPATCH_OR_QUEUE (set_ctx c r s) =
+        set_messages (messages s ++ [MItem r]) (if fx_ctx (fx c) && negb (is_none (dstate s)) then s else set_ctx c r s))).
+Proof. intros c s T. exact (transitions_match_source c s T). Qed.
 
 (* every invariant of the event steps is an invariant of whole polls *)
 Theorem C03_poll_is_event_sequence : forall (c : cfg) (P : st -> Prop),
